@@ -172,14 +172,14 @@ FAULTS = {
 }
 
 
-def build_fault(name, cutboxvector='c'):
+def build_fault(name, cutboxvector='c', vacuumwidth=0.0):
     import atomman as am
     f = FAULTS[name]
     sm = list(f['sizemults'])
     if cutboxvector != 'c':
         i = 'abc'.index(cutboxvector); sm = [1, 1, 1]; sm[i] = f['sizemults'][2]
     sf = am.defect.StackingFault(f['hkl'], ucell(f['kind']), cutboxvector=cutboxvector, a1vect_uvw=f['a1'], a2vect_uvw=f['a2'])
-    sf.surface(shiftindex=0, sizemults=sm, vacuumwidth=0.0)
+    sf.surface(shiftindex=0, sizemults=sm, vacuumwidth=vacuumwidth)
     return sf
 
 
@@ -235,7 +235,7 @@ def fault_obligations(sf, base_pos, atype, new, shift, fp, ob, tag, full=None):
 
 def h_fault(name, mode, cutboxvector='c'):
     def fn():
-        sf = build_fault(name, cutboxvector)
+        sf = build_fault(name, cutboxvector, vacuumwidth=3.0 if mode == 'faultshift' else 0.0)      # vacuum: cell origin below zero along the cut
         base = [[float(x) for x in p] for p in np.array(sf.system.atoms.pos, dtype=float)]
         s = symbolise(sf)
         atype = [int(t) for t in s.atoms.atype]
@@ -270,6 +270,74 @@ def h_fault(name, mode, cutboxvector='c'):
             new = sf.fault(a1=n1, a2=n2)
             shift = [n1 * float(A1[j]) + n2 * float(A2[j]) for j in range(3)]
             fault_obligations(sf, base, atype, new, shift, fp, ob, 'fault(n1,n2 full vectors)', full=True)
+        return ob
+    return fn
+
+
+# ---------------------------------------------------------------- (iii) termination shifts: the shift computation of FreeSurface.__init__ on symbolic layer positions
+_SHIFT = {}
+def shift_stage():
+    """the statements of FreeSurface.__init__ that compute the termination shifts from the rotated cell (from the
+    assignment of ovect to the assignment of shifts), recompiled from the current source as a function of
+    (rcell, cutindex, tol)"""
+    import sys
+    mod = sys.modules['atomman.defect.FreeSurface']
+    key = id(getattr(mod, 'np', None))
+    if key in _SHIFT: return _SHIFT[key]
+    tree = ast.parse(inspect.getsource(mod))
+    cls = next(n for n in tree.body if isinstance(n, ast.ClassDef) and n.name == 'FreeSurface')
+    init = next(n for n in cls.body if isinstance(n, ast.FunctionDef) and n.name == '__init__')
+    def assigns(st, name):
+        return isinstance(st, ast.Assign) and any(isinstance(t, ast.Name) and t.id == name for t in st.targets)
+    i0 = next(i for i, st in enumerate(init.body) if assigns(st, 'ovect'))
+    i1 = next(i for i, st in enumerate(init.body) if assigns(st, 'shifts'))
+    fdef = ast.parse('def _shift_stage(rcell, cutindex, tol):\n    pass').body[0]
+    fdef.body = init.body[i0:i1 + 1] + [ast.parse('return shifts, rcellwidth').body[0]]
+    m = ast.Module(body=[fdef], type_ignores=[])
+    ast.fix_missing_locations(m)
+    ns = {}
+    exec(compile(m, '/repo/atomman/defect/FreeSurface.py<translated>', 'exec'), mod.__dict__, ns)
+    _SHIFT[key] = ns['_shift_stage']
+    return _SHIFT[key]
+
+
+def h_shifts(nlayers, cutindex, dup):
+    """rotated cell with nlayers atomic layers at SYMBOLIC heights along the cut direction (dup: two atoms in the first layer)"""
+    def fn():
+        import atomman as am
+        stage = shift_stage()
+        w = [6.0, 7.5, 9.0][cutindex]
+        gap = 0.25
+        z = [var(f'z{k}', 0.0, w - 0.01) for k in range(nlayers)]
+        for k in range(nlayers - 1): assume(lt(z[k] + gap, z[k + 1]))
+        assume(lt(z[-1] + gap, z[0] + w))
+        order = list(range(nlayers))
+        order = order[1::2] + order[0::2]                     # atoms are not stored in layer order
+        rows = []
+        for n_, k in enumerate(order):
+            p = [0.3 + 0.7 * n_, 1.1 + 0.4 * n_, 0.5 + 0.9 * n_]; p[cutindex] = z[k]; rows.append(p)
+        if dup:
+            p = [2.2, 3.1, 2.7]; p[cutindex] = z[0]; rows.append(p)
+        box = am.Box.orthorhombic(6.0, 7.5, 9.0)
+        rcell = am.System(atoms=am.Atoms(pos=sa(rows)), box=box)
+        shifts, width = stage(rcell, cutindex, 1e-7)
+        ob = [('one shift vector per atomic layer, along the cut direction only', np.shape(shifts) == (nlayers, 3) and all((not sx.is_sym(shifts[i][j])) and float(shifts[i][j]) == 0.0 for i in range(np.shape(shifts)[0]) for j in range(3) if j != cutindex))]
+        if np.shape(shifts) != (nlayers, 3): return ob
+        S = [shifts[i][cutindex] for i in range(nlayers)]
+        ob.append(('shifts lie within one cell width', band(*[band(le(0, s_), le(s_, w)) for s_ in S])))
+        tiny = 1e-6
+        for i, s_ in enumerate(S):
+            # after the shift every layer height z_k + s (mod w) is strictly inside (0, w): the cut is strictly between planes
+            ob.append((f'shift {i}: the cut falls strictly between atomic planes', band(*[bor(band(lt(tiny, zk + s_), lt(zk + s_, w - tiny)), band(lt(w + tiny, zk + s_), lt(zk + s_, 2 * w - tiny))) for zk in z])))
+            # ... in the middle of a gap: distance to the plane below the cut == distance to the plane above it
+        for i in range(nlayers):
+            for j in range(i + 1, nlayers):
+                ob.append((f'shifts {i} and {j} select different gaps', bnot(close(S[i], S[j], 1e-6, 10.0))))
+        # every gap is offered: for each pair of consecutive layers some shift puts the cut between them
+        for k in range(nlayers):
+            lo = z[k]; hi = z[k + 1] if k + 1 < nlayers else z[0] + w
+            mid = (lo + hi) / 2
+            ob.append((f'the gap above layer {k} is offered, cut at its middle', bor(*[bor(close(mid + s_, w, 1e-6, 10.0), close(mid + s_, 2 * w, 1e-6, 10.0)) for s_ in S])))
         return ob
     return fn
 
@@ -370,6 +438,9 @@ def cases(tier, seed=0):
             for mode in ('fractional', 'faultshift', 'full'):
                 cs.append(Case(f'fault_{name}_{mode}' + ('' if cb == 'c' else f'_cut{cb}'), h_fault(name, mode, cb), bind=BIND, kernels=KER, allowed_exc=(), maxcases=32, max_paths=600,
                                budget_s=240 if tier == 'quick' else 1200, timeout_ms=20000, weight=3, descr=f'StackingFault.fault on {name}, cutboxvector {cb}, {mode} shifts'))
+    for nl_, ci, dup in ((2, 2, False), (3, 2, True), (3, 0, False), (4, 1, False)) if tier == 'quick' else ((2, 2, False), (3, 2, True), (3, 0, False), (3, 1, True), (4, 1, False), (4, 2, True), (5, 2, False)):
+        cs.append(Case(f'shifts_{nl_}layers_cut{"abc"[ci]}' + ('_dup' if dup else ''), h_shifts(nl_, ci, dup), bind=BIND, maxcases=32, max_paths=400, budget_s=240 if tier == 'quick' else 1500, timeout_ms=20000, weight=2,
+                       descr=f'termination shifts computed by FreeSurface.__init__ for {nl_} atomic layers at symbolic heights, cut direction {"abc"[ci]}'))
     cs.append(Case('basis_samples', h_basis_samples(2 if tier == 'quick' else 3), concrete_only=True, budget_s=170, descr='CONCRETE SAMPLES (not solver-decided): complete free_surface_basis incl. its search loops on one cell per crystal family, all planes within the sample bound, all cut vectors'))
     cs.append(Case('surface_samples', h_surface_samples(), concrete_only=True, budget_s=170, descr='CONCRETE SAMPLES (not solver-decided): FreeSurface cells and termination shifts on fcc/bcc/hcp'))
     return cs
